@@ -762,6 +762,10 @@ class PathEnumerator:
 
     def _loop(self, st, p: Path, fr: Frame, it_override: Optional[Term] = None) -> List[Path]:
         ev = self.ev
+        if isinstance(st, ast.For) and st.orelse and it_override is None:
+            # the else-branch of a loop runs only when the loop was not left by ``break``: read the flag form it abbreviates
+            from .normalize import completion_flag_form
+            return self.block(completion_flag_form(st), [p], fr)
         f = self._frame(fr, p)
         body_env = dict(p.env)
         self._cur_env = dict(p.env)
